@@ -10,7 +10,7 @@ for f in os.listdir(src):
 confirm = open(os.path.join(src, "confirm.txt")).read() if os.path.exists(os.path.join(src, "confirm.txt")) else ""
 base = re.search(r"baseline stable_pass=.*", confirm)
 meta = {
-  "seed": name, "property": wid, "origin": "independent sub-agent given only the property text and a scratch worktree",
+  "seed": name, "property": wid.split("-")[0], "origin": "independent sub-agent given only the property text and a scratch worktree",
   "needs_to_manifest": needs,
   "confirmed_by_me": {
      "commands": [f"/tmp/wt/confirm_seed.sh {wid}  (= run_baseline.sh with the change; cargo test --test seed_demo with the change; git apply -R; cargo test --test seed_demo)"],
